@@ -52,7 +52,8 @@ type Req struct {
 	Body    Lit      `json:"body,omitempty"`
 	Op      string   `json:"op"`
 	Muts    []string `json:"mutations,omitempty"`
-	Flow    bool     `json:"flow,omitempty"` // part of a harvesting flow (authorize/login/callback/exchange) rather than a fuzzed request
+	Tags    []string `json:"template_choices,omitempty"` // optional parts the template drew out of their natural context (the request is otherwise as valid as drawn)
+	Flow    bool     `json:"flow,omitempty"`             // part of a harvesting flow (authorize/login/callback/exchange) rather than a fuzzed request
 }
 
 // HTTP builds the *http.Request exactly the way net/http's server would after reading the request from the wire:
